@@ -99,6 +99,92 @@ class ClassInfo:
             and other.module.name == self.module.name
         )
 
+def inline_single_use_temporaries(tree: ast.AST) -> int:
+    """Source normal form applied to every repository module before analysis: a local that is assigned exactly once by a plain
+    `t = E`, read exactly once, and read by the *next* statement as a direct argument of a call (or as the whole value that
+    statement assigns/returns/tests) is replaced by E at that use and the assignment is dropped; repeated to a fixed point.
+    `t1 = a.b; t2 = [x]; f(k=t1, v=t2)` and `f(k=a.b, v=[x])` are then the same tree, so rules that look at call arguments do
+    not depend on whether the author introduced temporaries.  Returns the number of inlined temporaries."""
+    total = 0
+    for fn in [n for n in ast.walk(tree) if isinstance(n, (ast.FunctionDef, ast.AsyncFunctionDef))]:
+        params = {a.arg for a in fn.args.posonlyargs + fn.args.args + fn.args.kwonlyargs}
+        if fn.args.vararg:
+            params.add(fn.args.vararg.arg)
+        if fn.args.kwarg:
+            params.add(fn.args.kwarg.arg)
+        declared: set[str] = set()
+        for n in ast.walk(fn):
+            if isinstance(n, (ast.Global, ast.Nonlocal)):
+                declared |= set(n.names)
+        changed = True
+        while changed:
+            changed = False
+            stores: dict[str, int] = {}
+            loads: dict[str, int] = {}
+            for n in ast.walk(fn):
+                if isinstance(n, ast.Name):
+                    d = stores if isinstance(n.ctx, (ast.Store, ast.Del)) else loads
+                    d[n.id] = d.get(n.id, 0) + 1
+                elif isinstance(n, ast.arg):
+                    stores[n.arg] = stores.get(n.arg, 0) + 1
+            for holder in [n for n in ast.walk(fn)]:
+                for field in ("body", "orelse", "finalbody"):
+                    block = getattr(holder, field, None)
+                    if not (isinstance(block, list) and block and isinstance(block[0], ast.stmt)):
+                        continue
+                    i = 0
+                    while i + 1 < len(block):
+                        st, nxt = block[i], block[i + 1]
+                        if isinstance(st, ast.Assign) and len(st.targets) == 1 and isinstance(st.targets[0], ast.Name):
+                            t = st.targets[0].id
+                            if t not in params and t not in declared and stores.get(t) == 1 and loads.get(t) == 1 and _replace_direct_use(nxt, t, st.value):
+                                del block[i]
+                                total += 1
+                                changed = True
+                                loads[t] = 0
+                                continue
+                        i += 1
+    return total
+
+
+def _header_exprs(st: ast.stmt) -> list[tuple[ast.AST, str]]:
+    """(owner, field) pairs of the expressions a statement evaluates itself (not its nested blocks)."""
+    if isinstance(st, (ast.Expr, ast.Return)):
+        return [(st, "value")]
+    if isinstance(st, (ast.Assign, ast.AnnAssign, ast.AugAssign)):
+        return [(st, "value")]
+    if isinstance(st, (ast.If, ast.While)):
+        return [(st, "test")]
+    if isinstance(st, (ast.For, ast.AsyncFor)):
+        return [(st, "iter")]
+    return []
+
+
+def _replace_direct_use(st: ast.stmt, name: str, value: ast.AST) -> bool:
+    """Replace the single read of `name` in the header of `st` when it is a direct call argument / keyword value, or the whole
+    header expression.  Returns False (and changes nothing) otherwise."""
+    for owner, field in _header_exprs(st):
+        e = getattr(owner, field, None)
+        if e is None:
+            continue
+        if isinstance(e, ast.Name) and e.id == name and isinstance(e.ctx, ast.Load):
+            setattr(owner, field, value)
+            return True
+        for c in ast.walk(e):
+            if isinstance(c, (ast.Lambda, ast.ListComp, ast.SetComp, ast.DictComp, ast.GeneratorExp)):
+                continue
+            if isinstance(c, ast.Call):
+                for k, a in enumerate(c.args):
+                    if isinstance(a, ast.Name) and a.id == name and isinstance(a.ctx, ast.Load):
+                        c.args[k] = value
+                        return True
+                for kw in c.keywords:
+                    if isinstance(kw.value, ast.Name) and kw.value.id == name and isinstance(kw.value.ctx, ast.Load):
+                        kw.value = value
+                        return True
+    return False
+
+
 
 @dataclass
 class Module:
@@ -166,6 +252,8 @@ class Repo:
                 tree = ast.parse(src, filename=rel)
             except SyntaxError as e:
                 raise AnalysisError(f"cannot parse {rel}: {e}") from e
+            if os.environ.get("FV_NO_DETEMP") != "1":
+                inline_single_use_temporaries(tree)
             m = Module(name=name, path=p, rel=rel, src=src, tree=tree)
             self._index(m)
             self.modules[name] = m
